@@ -282,8 +282,16 @@ def build(seed: int, family: str | None = None, allow_restart: bool = True) -> S
         atoms.calc = pick_calc(rs, atoms, allow=("emt", "harm", "pair"))
         if rs.rand() < 0.3:
             atoms.set_constraint(FixAtoms(indices=[0]))
+        elif np.random.RandomState((seed ^ 0xC0FFEE) % (2**32)).rand() < 0.4:
+            # a collective constraint: the remembered momenta are then no bitwise fixed point of adjust_momenta (restoring
+            # them through set_momenta changes their last bits).  (A generator of its own: the other runs stay what they were.)
+            atoms.set_constraint(FixCom())
         mc = HamiltonianCanonical(atoms, temperature=float(rs.choice([300.0, 2000.0])), max_cycles=int(rs.randint(1, 3)), seed=sim_seed, logfile=maybe_logfile(rs))
         h = RecHam(operation=Verlet(dt=float(rs.choice([0.5, 2.0, 8.0])), max_steps=int(rs.randint(1, 4))))
+        if np.random.RandomState((seed ^ 0xD7) % (2**32)).rand() < 0.5:
+            # half of the runs: a time step at which a good part of the trajectories is REJECTED by the criteria (the
+            # sample had next to none: "a rejected Hamiltonian trial restores positions and momenta" was hardly exercised)
+            h.operation.dt *= 12.0
         attach_veto(sc, h, 0.3)
         mc.add_move(h, name="ham")
         if rs.rand() < 0.5:
